@@ -334,6 +334,43 @@ def rename(obj, old, new):
     return obj
 
 
+def respell_references(sch, rng, p=0.5):
+    """SBE type lookup is case-insensitive: respell some references to declared public types (`type` of fields, refs
+    and data, `encodingType`, `dimensionType`, `headerType`, the enum part of `valueRef`) in another letter case than
+    the declaration.  Generated code must keep using the DECLARED name (file names of includes, namespaces, tags).
+    Returns the number of respelled references."""
+    declared = {t['name'] for t in sch['types']}
+    count = [0]
+
+    def variant(name):
+        cands = [v for v in (name.swapcase(), name.upper(), name.lower(), name[:1].swapcase() + name[1:]) if v != name]
+        return rng.choice(cands) if cands else name
+
+    def walk(o):
+        if isinstance(o, dict):
+            for k in ('type', 'enc', 'dim'):
+                if isinstance(o.get(k), str) and o[k] in declared and rng.random() < p:
+                    o[k] = variant(o[k])
+                    count[0] += 1
+            if isinstance(o.get('valueRef'), str):
+                a, _, b = o['valueRef'].partition('.')
+                if a in declared and rng.random() < p:
+                    o['valueRef'] = variant(a) + '.' + b
+                    count[0] += 1
+            for v in list(o.values()):
+                walk(v)
+        elif isinstance(o, list):
+            for x in o:
+                walk(x)
+    walk(sch['types'])
+    walk(sch['messages'])
+    hdr = sch.get('headerType', 'messageHeader')
+    if hdr in declared and rng.random() < p:
+        sch['headerType'] = variant(hdr)
+        count[0] += 1
+    return count[0]
+
+
 def sweep_schema(ident, position):
     sch = rename(base_schema(), position, ident)
     if position == 'messageHeader':
